@@ -110,6 +110,34 @@ func (f *Flags) Expired() bool { return !f.Deadline.IsZero() && time.Now().After
 
 // New creates a report.
 func New(property string) *Report {
+	current = newReport(property)
+	return current
+}
+
+// current is the report OpFailed writes into.
+var current *Report
+
+// OpFailed is for a lindb operation of the harness' own set-up or driving code that must not fail (open a store,
+// write a point, flush ...) and did: on the unchanged tree it never happens; on a changed tree it is a verdict
+// about lindb, not a broken harness. The violation (clause operation-failed) is recorded, the report written and
+// the worker ends normally, so the driver prints VIOLATION and exits 1.
+func OpFailed(format string, a ...interface{}) {
+	msg := fmt.Sprintf(format, a...)
+	fmt.Fprintln(os.Stderr, "OPERATION-FAILED: "+msg)
+	if current == nil {
+		Fatal("%s", msg)
+	}
+	site := msg
+	if i := strings.Index(site, ":"); i > 0 {
+		site = site[:i]
+	}
+	current.Violate(Violation{Clause: "operation-failed", Scenario: "harness-driven operation", Site: site, Detail: "a lindb operation the harness needs failed: " + msg})
+	current.Exhaustive = false
+	current.Write()
+	os.Exit(0)
+}
+
+func newReport(property string) *Report {
 	return &Report{Property: property, Exhaustive: true, Part: F.Part, outcomes: map[string]struct{}{}, seenV: map[string]struct{}{},
 		Bounds: map[string]interface{}{}, Extra: map[string]interface{}{}, Counters: map[string]int64{}}
 }
